@@ -151,6 +151,36 @@ func c03Probe(t *rapid.T) []kit.Argv {
 	return out
 }
 
+// c03LposSweep: a list of 3-9 elements over a three-letter alphabet and several LPOS calls whose RANK, COUNT and
+// MAXLEN are mostly all present, so that the combinations (backward scan with a length budget, count 0 with a
+// rank ...) are met on lists long enough for them to matter.
+func c03LposSweep(t *rapid.T) []kit.Argv {
+	k := pick(t, "lk", "l1", "l2")
+	push := []string{"RPUSH", k}
+	for n := rapid.IntRange(3, 9).Draw(t, "len"); n > 0; n-- {
+		push = append(push, pick(t, "e", "x", "y", "z"))
+	}
+	out := []kit.Argv{kit.A("DEL", k), kit.A(push...)}
+	for n := rapid.IntRange(3, 6).Draw(t, "calls"); n > 0; n-- {
+		a := []string{"LPOS", k, pick(t, "e", "x", "y", "z")}
+		for _, o := range rapid.Permutation([]string{"RANK", "COUNT", "MAXLEN"}).Draw(t, "order") {
+			if rapid.IntRange(0, 4).Draw(t, "omit") == 0 {
+				continue
+			}
+			switch o {
+			case "RANK":
+				a = append(a, o, pick(t, "rank", "1", "-1", "2", "-2", "3", "-3"))
+			case "COUNT":
+				a = append(a, o, pick(t, "count", "0", "1", "2", "5"))
+			default:
+				a = append(a, o, pick(t, "maxlen", "0", "1", "2", "3", "4", "6", "9", "20"))
+			}
+		}
+		out = append(out, kit.A(a...))
+	}
+	return out
+}
+
 func c03Gen(t *rapid.T) SeqCase {
 	steps := []kit.Argv{kit.A("SET", "str", "v"), kit.A("HSET", "h", "f", "v")}
 	n := rapid.IntRange(5, 45).Draw(t, "steps")
@@ -159,8 +189,16 @@ func c03Gen(t *rapid.T) SeqCase {
 			steps = append(steps, c03Probe(t)...)
 			continue
 		}
+		if rapid.IntRange(0, 19).Draw(t, "lpos") == 0 {
+			steps = append(steps, c03LposSweep(t)...)
+			continue
+		}
 		if rapid.IntRange(0, 14).Draw(t, "gone") == 0 {
 			steps = append(steps, afterGone(t, c03Keys, c03Step)...)
+			continue
+		}
+		if rapid.IntRange(0, 19).Draw(t, "retype") == 0 {
+			steps = append(steps, afterRetype(t, c03Keys, c03Step)...)
 			continue
 		}
 		steps = append(steps, c03Step(t))
